@@ -190,7 +190,9 @@ func (p *presenter) field(doc map[string]interface{}, term string, kind string, 
 		p.nlv(doc, term, m["nlv"])
 	case "time":
 		t := asList(m["time"])
-		tm := time.Unix(int64(num(t[0])), int64(num(t[1]))).In(time.FixedZone("", int(num(t[2]))))
+		off := int(num(t[2]))
+		off -= off % 60 // RFC 3339 spells offsets to the minute: an independent writer states the instant in such a zone
+		tm := time.Unix(int64(num(t[0])), int64(num(t[1]))).In(time.FixedZone("", off))
 		doc[term] = jLeaf{T{"time": []interface{}{int64(num(t[0])), 0, 0}}, tm.Format(time.RFC3339Nano)}
 		if num(t[2]) != 0 {
 			p.count("time/zoned")
